@@ -118,15 +118,16 @@ func NewSymTab(seed int64, moduleAddr []byte, prefix string) *SymTab {
 		keyByName: map[string]*AttKey{}, attRev: map[string][2]string{}, k32Rev: map[string]string{}}
 	t.MintDenom = "uusdc"
 	// unit of account: abstract amount i stands for i*Unit
+	// odd seeds (incl. the default) use a unit above 2^64 so that any 64-bit truncation of an amount is visible
 	switch ((seed % 4) + 4) % 4 {
-	case 0, 1:
+	case 0:
 		t.Unit = big.NewInt(1)
-	case 2:
+	case 1, 3:
 		t.Unit = new(big.Int).Add(new(big.Int).Lsh(big.NewInt(1), 64), big.NewInt(1))
-	case 3:
+	case 2:
 		t.Unit = new(big.Int).Div(new(big.Int).Sub(new(big.Int).Lsh(big.NewInt(1), 256), big.NewInt(1)), big.NewInt(16))
 	}
-	if seed%5 == 0 && seed != 0 {
+	if seed%10 == 0 && seed != 0 {
 		t.Unit = big.NewInt(7)
 	}
 	// nonce base: real chains start at 0 (odd seeds, incl. the default); even seeds use a large random base
@@ -260,6 +261,11 @@ func (t *SymTab) Addr20(sym string) []byte {
 	if b, ok := t.addr[sym]; ok {
 		return b
 	}
+	if strings.HasPrefix(sym, "?") { // a value observed from the code that has no symbol: it spells its own bytes
+		if b, err := hex.DecodeString(sym[1:]); err == nil {
+			return b
+		}
+	}
 	panic("unknown 20-byte symbol " + sym)
 }
 
@@ -274,6 +280,11 @@ func (t *SymTab) Addr20Sym(b []byte) string {
 
 func (t *SymTab) Bytes(b B32) []byte {
 	if b.N != 32 {
+		if strings.HasPrefix(b.Lo, "?") {
+			if hb, err := hex.DecodeString(b.Lo[1:]); err == nil {
+				return hb
+			}
+		}
 		out := make([]byte, b.N)
 		if b.Lo != "zero" {
 			copy(out, prf(t.Seed, fmt.Sprintf("bytes:%d", b.N), b.N))
@@ -289,6 +300,10 @@ func (t *SymTab) Bytes(b B32) []byte {
 	out := make([]byte, 32)
 	if b.Hi == "j" {
 		copy(out[:12], t.Junk12)
+	} else if strings.HasPrefix(b.Hi, "?") {
+		if hb, err := hex.DecodeString(b.Hi[1:]); err == nil {
+			copy(out[:12], hb)
+		}
 	}
 	copy(out[12:], t.Addr20(b.Lo))
 	return out
@@ -328,6 +343,12 @@ func (t *SymTab) BytesSym(bz []byte) B32 {
 func (t *SymTab) Dom(sym string) uint32 {
 	if v, ok := t.dom[sym]; ok {
 		return v
+	}
+	if strings.HasPrefix(sym, "?") {
+		var v uint32
+		if _, err := fmt.Sscanf(sym[1:], "%d", &v); err == nil {
+			return v
+		}
 	}
 	panic("unknown domain symbol " + sym)
 }
@@ -374,6 +395,9 @@ func (t *SymTab) AmountSym(v *big.Int) int {
 func (t *SymTab) Denom(sym string) string {
 	if s, ok := t.denom[sym]; ok {
 		return s
+	}
+	if strings.HasPrefix(sym, "?") {
+		return sym[1:]
 	}
 	panic("unknown denom symbol " + sym)
 }
